@@ -16,8 +16,9 @@ import Tahoe.Identity.Lemmas
     Not covered by a theorem: that `to_string()` of a cap is a function of its fields and vice versa (C15's
     subject; here a cap *is* its string), `CiphertextFileNode`/`ProhibitedNode` (outside the model).
 
-    The theorems are about `Variant.fixed` = the code in /repo (the three C43 fixes are committed); the
-    `shipped_*_counterexample` theorems document the three defects of the originally shipped code. -/
+    The theorems are about `Variant.fixed` = the code in /repo (all four C43 fixes are committed, the last one 8fd04af
+    `UnknownNode.__hash__`); the `shipped_*_counterexample` theorems and `unknownnode_unhashable_counterexample`
+    document the four defects of the originally shipped code (`Variant.shipped`). No open finding. -/
 namespace Tahoe.C43
 open Tahoe.Identity Tahoe.Generated
 
